@@ -47,7 +47,7 @@ def cases(seed, tier):
     for i in range(24 if tier == 'quick' else 3000):
         out.append({'mode': 'kde', 'seed': int(rng.integers(1 << 31)),
                     'bw': [None, 'scott', 'silverman', 0.05, 0.3, 1.0][i % 6],
-                    'weighted': bool(i % 3 == 1), 'sample_size': [None, None, 10, 200][i % 4] if i % 3 != 1 else None,
+                    'weighted': bool(i % 3 == 1), 'sample_size': [None, None, 10, 200][i % 4] if i % 3 != 1 else None,   # weights + sample_size: fit raises ValueError (weights keep length n)
                     'n': int(rng.choice([5, 50, 300, 2000]))})
     for i in range(48 if tier == 'quick' else 2400):
         out.append({'mode': 'support', 'family': ['beta', 'uniform', 'truncnorm', 'truncnorm'][i % 4],
@@ -229,6 +229,37 @@ def _support(spec, ctx):
     ctx.nontriv('support|%s|%d' % (fam, spec['seed']))
 
 
+def _resample_uses_options(ctx, x, w, spec, stored, where):
+    """RNG replay of the resample: the global state was seeded just before fit, so the stored dataset can be
+    compared with scipy's resample of the kernel estimate built with the requested options and, if it
+    differs, with the resamples obtained when an option is dropped.  Only an exact match with a
+    dropped-option replay is a violation; a resample that matches no replay is noted, not judged."""
+    from scipy.stats import gaussian_kde
+
+    def replay(bw, weights):
+        np.random.seed(spec['seed'] % (2 ** 31))
+        try:
+            return np.asarray(gaussian_kde(x, bw_method=bw, weights=weights).resample(spec['sample_size']), dtype=float).ravel()
+        except Exception:  # noqa: BLE001
+            return None
+    want = replay(spec['bw'], w)
+    if want is not None and want.shape == stored.shape and np.allclose(stored, want, rtol=1e-12, atol=0):
+        ctx.ok('kde.resample-replay')
+        return
+    alts = []
+    if spec['bw'] not in (None, 'scott'):
+        alts.append(('bandwidth-rule', replay(None, w)))
+    if w is not None:
+        alts.append(('weights', replay(spec['bw'], None)))
+        if spec['bw'] not in (None, 'scott'):
+            alts.append(('bandwidth-rule-and-weights', replay(None, None)))
+    for name, alt in alts:
+        if alt is not None and alt.shape == stored.shape and np.allclose(stored, alt, rtol=1e-12, atol=0):
+            ctx.violation('kde.resample-replay', 'C04:kde-resample-ignores-' + name, dict(where, dropped=name))
+            return
+    ctx.note('kde resample not reproduced by any replay (not judged)')
+
+
 def _kde(spec, ctx):
     from copulas.univariate import GaussianKDE
     rng = rng_for(spec['seed'], 'kde')
@@ -256,6 +287,7 @@ def _kde(spec, ctx):
         ctx.check(len(stored) == spec['sample_size'], 'kde.sample-size', 'C04:kde-stored-dataset-wrong-size',
                   lambda: dict(where, stored=len(stored)))
         base = stored
+        _resample_uses_options(ctx, x, w, spec, stored, where)
     else:
         ctx.check(len(stored) == n and np.array_equal(np.sort(stored), np.sort(x)), 'kde.keeps-data',
                   'C04:kde-stored-dataset-not-training-data', lambda: dict(where, stored=len(stored)))
